@@ -99,8 +99,10 @@ static int raw_png(const char *id, const char *fn) {
   if (!fh) { printf("E %s open\n", id); return 1; }
   png_structp p = png_create_read_struct(PNG_LIBPNG_VER_STRING, NULL, NULL, NULL);
   png_infop info = png_create_info_struct(p);
+  static volatile int stage; /* 0: header, 1: image rows, 2: all rows delivered (png_read_end) */
+  stage = 0;
   if (setjmp(png_jmpbuf(p))) {
-    printf("E %s libpng\n", id);
+    printf("E %s libpng stage=%d\n", id, stage);
     png_destroy_read_struct(&p, &info, NULL);
     fclose(fh);
     return 1;
@@ -115,7 +117,9 @@ static int raw_png(const char *id, const char *fn) {
   png_bytep *rows = malloc(sizeof(png_bytep) * h);
   for (png_uint_32 i = 0; i < h; i++) rows[i] = calloc(1, rb + 1);
   if (il != PNG_INTERLACE_NONE) png_set_interlace_handling(p);
+  stage = 1;
   png_read_image(p, rows);
+  stage = 2;
   png_read_end(p, NULL);
   printf("F %s %u %u %d %d %d %zu", id, w, h, depth, ct, il, rb);
   for (png_uint_32 i = 0; i < h; i++) {
